@@ -41,6 +41,11 @@ type ProxyOpts struct {
 	// the proxy serves it. The listeners are private to HTTPProxy, so they are reached by
 	// reflection; StartProxy fails with ErrNoListenerTap when that is no longer possible.
 	OnAccept func(net.Conn)
+	// Base, when set, is the configuration OBJECT handed to NewHTTPProxy (instead of a fresh
+	// DefaultHTTPProxyConfig()): StartProxy sets its Address to 127.0.0.1:0, applies Configure to it
+	// and passes this very pointer on. Lets a scenario build several instances from one config value
+	// (a struct copy of a template, or the same object twice).
+	Base *forwarder.HTTPProxyConfig
 }
 
 // ErrNoListenerTap: the proxy's listener slice could not be reached (field renamed or retyped).
@@ -83,6 +88,7 @@ func tapListeners(hp *forwarder.HTTPProxy, fn func(net.Conn)) (err error) {
 type Proxy struct {
 	HP     *forwarder.HTTPProxy
 	Addr   string
+	Addrs  []string // every listener's address (main listener first, then ExtraListeners in order)
 	cancel context.CancelFunc
 	done   chan error
 	RT     *http.Transport
@@ -98,7 +104,10 @@ func Route(host, port, addr string) forwarder.HostPortPair {
 }
 
 func StartProxy(o ProxyOpts) (*Proxy, error) {
-	cfg := forwarder.DefaultHTTPProxyConfig()
+	cfg := o.Base
+	if cfg == nil {
+		cfg = forwarder.DefaultHTTPProxyConfig()
+	}
 	cfg.Address = "127.0.0.1:0"
 	if o.Configure != nil {
 		o.Configure(cfg)
@@ -151,7 +160,7 @@ func StartProxy(o ProxyOpts) (*Proxy, error) {
 		return nil, fmt.Errorf("proxy has no address")
 	}
 	ctx, cancel := context.WithCancel(context.Background())
-	p := &Proxy{HP: hp, Addr: addrs[0], cancel: cancel, done: make(chan error, 1), RT: rt}
+	p := &Proxy{HP: hp, Addr: addrs[0], Addrs: addrs, cancel: cancel, done: make(chan error, 1), RT: rt}
 	go func() { p.done <- hp.Run(ctx) }()
 	return p, nil
 }
